@@ -29,6 +29,16 @@
 (*   SenderReconnectStrandsPending  the sender re-creates the stream while *)
 (*                          the receiver is between two reads: nobody      *)
 (*                          fails the requests pending on the old stream   *)
+(*   FailedReconnectNilStream  a failed attempt to re-create the stream    *)
+(*                          stores the nil result as the current stream; a *)
+(*                          receiver between two reads then reads from nil *)
+(*                          and the process dies                           *)
+(*   EnqueueBlocksOnOwnReplyChannel  a caller that answers its own request *)
+(*                          (node closed / context ended during hand-off)  *)
+(*                          sends into its own reply channel under the     *)
+(*                          router mutex; a streaming call's channel may   *)
+(*                          be full of other nodes' replies and is read by *)
+(*                          nobody before all requests are handed off      *)
 (***************************************************************************)
 EXTENDS Integers, Sequences, FiniteSets, TLC
 
@@ -43,6 +53,7 @@ CONSTANTS
   ChanCap,    \* capacity of a streaming call's reply channel
   MaxItems,   \* replies a streaming handler sends
   Window,     \* flow-control window: requests in flight per stream
+  Foreign,    \* whether other nodes of a streaming call's configuration fill its reply channel
   Devs
 
 VARIABLES
@@ -88,6 +99,10 @@ Init ==
 (* Router table (under the router mutex; nothing else may take the mutex   *)
 (* while the receiver is blocked in a delivery)                            *)
 (***************************************************************************)
+\* A caller blocked in a delivery to its own reply channel holds the router mutex
+\* (deviation EnqueueBlocksOnOwnReplyChannel); so does a receiver blocked in a delivery.
+CallerHoldsRM == \E q \in Reqs : cpc[q] = "selfblocked"
+RMFree == ~rmBlocked /\ ~CallerHoldsRM
 \* Deliver response v for request r: effect on resp and routers.
 \* A full streaming channel blocks the deliverer.
 CanDeliver(r) == r \notin routers \/ ~Streaming(r) \/ Len(resp[r]) - taken[r] < ChanCap
@@ -101,7 +116,7 @@ Delivered(r, v) ==
 (* Callers                                                                 *)
 (***************************************************************************)
 Issue(r) ==
-  /\ cpc[r] = "idle" /\ ~rmBlocked
+  /\ cpc[r] = "idle" /\ RMFree
   /\ routers' = IF HasRouter(r) THEN routers \cup {r} ELSE routers
   /\ cpc' = [cpc EXCEPT ![r] = "handoff"]
   /\ UNCHANGED <<ctx, resp, taken, sendQ, spc, cur, sndErr, sretries, sndEpoch, raced, rpc, rcvEpoch, rmsg, rcvLast, watcher, broken,
@@ -129,23 +144,43 @@ HandOffDirect(r) ==
                  lkR, lkWait, epoch, alive, routers, rmBlocked, c2s, s2c, up, crashes, mutHeld, handlers, items,
                  closed, started>>
 
+\* The caller answers its own request.  Deviation EnqueueBlocksOnOwnReplyChannel: a
+\* blocking send under the router mutex; when the (streaming) channel is full the
+\* caller - the only reader of that channel - blocks for good holding the mutex.
+\* Repaired design: the caller's own error is dropped when the channel is full
+\* (the call ends by its context / sees the closed node itself).
+OwnAnswer(r) ==
+  IF CanDeliver(r)
+    THEN Delivered(r, "err") /\ cpc' = [cpc EXCEPT ![r] = AfterHandOff(r)]
+    ELSE /\ UNCHANGED <<resp, routers>>
+         /\ cpc' = [cpc EXCEPT ![r] = IF "EnqueueBlocksOnOwnReplyChannel" \in Devs THEN "selfblocked"
+                                       ELSE AfterHandOff(r)]
+
 \* the node is closed: answer "channel closed" instead of queueing
 ClosedReply(r) ==
-  /\ cpc[r] = "handoff" /\ closed /\ ~rmBlocked
-  /\ Delivered(r, "err")
-  /\ cpc' = [cpc EXCEPT ![r] = AfterHandOff(r)]
+  /\ cpc[r] = "handoff" /\ closed /\ RMFree
+  /\ OwnAnswer(r)
   /\ UNCHANGED <<ctx, taken, sendQ, spc, cur, sndErr, sretries, sndEpoch, raced, rpc, rcvEpoch, rmsg, rcvLast, watcher, broken,
                  established, lkW, lkR, lkWait, epoch, alive, rmBlocked, c2s, s2c, up, crashes, mutHeld, handlers,
                  items, closed, enqOrder, started>>
 
 \* repaired design: the hand-off also watches the request's context
 CtxReply(r) ==
-  /\ cpc[r] = "handoff" /\ ctx[r] = "ended" /\ "EnqIgnoresCtx" \notin Devs /\ ~rmBlocked
-  /\ Delivered(r, "err")
-  /\ cpc' = [cpc EXCEPT ![r] = AfterHandOff(r)]
+  /\ cpc[r] = "handoff" /\ ctx[r] = "ended" /\ "EnqIgnoresCtx" \notin Devs /\ RMFree
+  /\ OwnAnswer(r)
   /\ UNCHANGED <<ctx, taken, sendQ, spc, cur, sndErr, sretries, sndEpoch, raced, rpc, rcvEpoch, rmsg, rcvLast, watcher, broken,
                  established, lkW, lkR, lkWait, epoch, alive, rmBlocked, c2s, s2c, up, crashes, mutHeld, handlers,
                  items, closed, enqOrder, started>>
+
+\* Another node of the streaming call's configuration has answered: its reply sits
+\* in the call's (shared, bounded) reply channel.  ENVIRONMENT of this node.
+ForeignItem(r) ==
+  /\ Foreign /\ Streaming(r) /\ cpc[r] \in {"handoff", "wait"}
+  /\ Len(resp[r]) - taken[r] < ChanCap /\ Len(resp[r]) < MaxItems + ChanCap
+  /\ resp' = [resp EXCEPT ![r] = Append(@, "ok")]
+  /\ UNCHANGED <<cpc, ctx, taken, sendQ, spc, cur, sndErr, sretries, sndEpoch, raced, rpc, rcvEpoch, rmsg, rcvLast, watcher, broken,
+                 established, lkW, lkR, lkWait, epoch, alive, routers, rmBlocked, c2s, s2c, up, crashes, mutHeld,
+                 handlers, items, closed, enqOrder, started>>
 
 \* the call consumes a response
 Take(r) ==
@@ -180,7 +215,7 @@ TakeCtx(r) ==
 \* receiver blocked in a delivery to this very call holds.  Repaired design:
 \* the call keeps draining its channel until the router is gone.
 DeleteRouter(r) ==
-  /\ cpc[r] = "delete"
+  /\ cpc[r] = "delete" /\ ~CallerHoldsRM
   /\ IF "StreamRouteBlocksUnderRM" \in Devs THEN ~rmBlocked ELSE (~rmBlocked \/ rmsg = r)
   /\ routers' = routers \ {r}
   /\ rmBlocked' = IF rmBlocked /\ rmsg = r THEN FALSE ELSE rmBlocked
@@ -220,7 +255,7 @@ SenderExit ==
 \* node closed with requests in the buffer - the exiting sender, or the caller
 \* that has just put one there - answers them "channel closed".
 Drain ==
-  /\ closed /\ sendQ # <<>> /\ "BufferedSendQStrands" \notin Devs /\ ~rmBlocked
+  /\ closed /\ sendQ # <<>> /\ "BufferedSendQStrands" \notin Devs /\ RMFree
   /\ spc \in {"idle", "exited"}
   /\ Delivered(Head(sendQ), "err") /\ sendQ' = Tail(sendQ)
   /\ SUnch /\ UNCHANGED <<spc, cur, sndErr, sretries, sndEpoch, raced, watcher, broken, established, lkW, lkR, lkWait, epoch,
@@ -268,6 +303,9 @@ SLockWait ==
                           routers, rmBlocked>>
 
 NewStreamOK == up /\ ~closed /\ epoch < MaxEpoch
+\* Deviation FailedReconnectNilStream: the failed attempt's nil result replaces the
+\* current stream object; repaired design: the old (broken) object is kept.
+FailedAttempt == IF "FailedReconnectNilStream" \in Devs /\ epoch > 0 THEN [alive EXCEPT ![epoch] = "nil"] ELSE alive
 
 SLocked ==
   /\ spc = "s_locked" /\ lkW = "snd"
@@ -277,7 +315,7 @@ SLocked ==
        ELSE IF NewStreamOK
               THEN /\ epoch' = epoch + 1 /\ alive' = [alive EXCEPT ![epoch + 1] = "open"]
                    /\ broken' = FALSE /\ spc' = "brokenchk" /\ UNCHANGED sretries
-              ELSE /\ UNCHANGED <<epoch, alive>>
+              ELSE /\ UNCHANGED epoch /\ alive' = FailedAttempt
                    /\ IF sretries >= 1 THEN broken' = TRUE /\ spc' = "brokenchk" /\ UNCHANGED sretries
                       ELSE spc' = "s_sleep" /\ UNCHANGED <<broken, sretries>>
   /\ SUnch /\ UNCHANGED <<sendQ, resp, cur, sndErr, sndEpoch, raced, watcher, established, lkR, lkWait, routers, rmBlocked>>
@@ -294,7 +332,7 @@ SSleepDone ==
 BrokenCheck ==
   /\ spc = "brokenchk"
   /\ IF broken
-       THEN /\ ~rmBlocked /\ Delivered(cur, "err") /\ spc' = "idle" /\ cur' = 0
+       THEN /\ RMFree /\ Delivered(cur, "err") /\ spc' = "idle" /\ cur' = 0
        ELSE /\ spc' = "ctxchk" /\ UNCHANGED <<resp, routers, cur>>
   /\ SUnch /\ UNCHANGED <<sendQ, sndErr, sretries, sndEpoch, raced, watcher, broken, established, lkW, lkR, lkWait, epoch,
                           alive, rmBlocked>>
@@ -322,7 +360,7 @@ SendDone ==
   /\ \/ /\ alive[sndEpoch] = "open" /\ Len(c2s[sndEpoch]) < Window
         /\ c2s' = [c2s EXCEPT ![sndEpoch] = Append(@, cur)]
         /\ UNCHANGED <<broken, sndErr>>
-     \/ /\ alive[sndEpoch] # "open"
+     \/ /\ alive[sndEpoch] \notin {"open", "nil"}
         /\ broken' = TRUE /\ sndErr' = TRUE /\ UNCHANGED c2s
      \/ \* the write raced with the cancellation of the stream: SendMsg reports
         \* success but the message never arrives
@@ -335,9 +373,16 @@ SendDone ==
                  started, sendQ, resp, cur, sretries, sndEpoch, raced, established, lkW, lkWait, epoch, alive, routers,
                  rmBlocked>>
 
+\* SendMsg on the nil stream object
+SendNil ==
+  /\ spc = "sending" /\ alive[sndEpoch] = "nil"
+  /\ spc' = "panicked"
+  /\ SUnch /\ UNCHANGED <<sendQ, resp, cur, sndErr, sretries, sndEpoch, raced, watcher, broken, established, lkW, lkR, lkWait,
+                          epoch, alive, routers, rmBlocked>>
+
 \* unblock a send-waiting one-way caller; then report a send error
 Confirm ==
-  /\ spc = "confirm" /\ ~rmBlocked
+  /\ spc = "confirm" /\ RMFree
   /\ IF Kind[cur] = "sw" THEN Delivered(cur, "conf")
      ELSE IF sndErr THEN Delivered(cur, "err") ELSE UNCHANGED <<resp, routers>>
   /\ spc' = "idle" /\ cur' = 0
@@ -372,7 +417,7 @@ RRLock ==
   /\ RUnch /\ UNCHANGED <<resp, rmsg, broken, lkW, lkWait, epoch, alive, routers, rmBlocked, s2c>>
 
 CancelPending2 ==
-  /\ rpc = "cancelpend2" /\ ~rmBlocked
+  /\ rpc = "cancelpend2" /\ RMFree
   /\ \A r \in routers : CanDeliver(r)
   /\ resp' = [r \in Reqs |-> IF r \in routers THEN Append(resp[r], "err") ELSE resp[r]]
   /\ routers' = {r \in routers : Streaming(r)}
@@ -389,22 +434,28 @@ RecvOk ==
 \* route the response.  A full streaming channel blocks the receiver; with
 \* deviation StreamRouteBlocksUnderRM it blocks holding the router mutex.
 Route ==
-  /\ rpc = "route" /\ ~(rmBlocked /\ rmsg \in routers /\ ~CanDeliver(rmsg))
+  /\ rpc = "route" /\ ~CallerHoldsRM /\ ~(rmBlocked /\ rmsg \in routers /\ ~CanDeliver(rmsg))
   /\ IF CanDeliver(rmsg)
        THEN /\ Delivered(rmsg, "ok") /\ rmBlocked' = FALSE
             /\ rpc' = IF closed THEN "exiting" ELSE "rlockwait"
        ELSE /\ rmBlocked' = TRUE /\ UNCHANGED <<resp, routers, rpc>>
   /\ RUnch /\ UNCHANGED <<rcvLast, rcvEpoch, rmsg, broken, lkW, lkR, lkWait, epoch, alive, s2c>>
 
+\* RecvMsg on the nil stream object: nil dereference, the process dies
+RecvNil ==
+  /\ rpc = "recv" /\ alive[rcvEpoch] = "nil"
+  /\ rpc' = "panicked"
+  /\ RUnch /\ UNCHANGED <<rcvLast, resp, rcvEpoch, rmsg, broken, lkW, lkR, lkWait, epoch, alive, routers, rmBlocked, s2c>>
+
 \* RecvMsg fails: set the flag, release the read lock
 RecvErr ==
-  /\ rpc = "recv" /\ alive[rcvEpoch] # "open"
+  /\ rpc = "recv" /\ alive[rcvEpoch] \notin {"open", "nil"}
   /\ broken' = TRUE /\ lkR' = lkR \ {"rcv"} /\ rpc' = "cancelpend" /\ rcvLast' = 0
   /\ RUnch /\ UNCHANGED <<resp, rcvEpoch, rmsg, lkW, lkWait, epoch, alive, routers, rmBlocked, s2c>>
 
 \* every pending request is answered "stream is down"
 CancelPending ==
-  /\ rpc = "cancelpend" /\ ~rmBlocked
+  /\ rpc = "cancelpend" /\ RMFree
   /\ \A r \in routers : CanDeliver(r)
   /\ resp' = [r \in Reqs |-> IF r \in routers THEN Append(resp[r], "err") ELSE resp[r]]
   /\ routers' = {r \in routers : Streaming(r)}
@@ -428,7 +479,7 @@ RLocked ==
        ELSE IF NewStreamOK
               THEN /\ epoch' = epoch + 1 /\ alive' = [alive EXCEPT ![epoch + 1] = "open"]
                    /\ broken' = FALSE /\ rpc' = AfterReconnect
-              ELSE rpc' = "r_sleep" /\ UNCHANGED <<epoch, alive, broken>>
+              ELSE rpc' = "r_sleep" /\ alive' = FailedAttempt /\ UNCHANGED <<epoch, broken>>
   /\ RUnch /\ UNCHANGED <<rcvLast, resp, rcvEpoch, rmsg, lkR, lkWait, routers, rmBlocked, s2c>>
 
 \* the receiver's back-off timer: ENVIRONMENT (it fires after up to MaxDelay)
@@ -459,7 +510,7 @@ ReceiverExit ==
   /\ rpc = "exiting"
   /\ IF "RcvExitSkipsCancelPending" \in Devs
        THEN UNCHANGED <<resp, routers>>
-       ELSE /\ ~rmBlocked /\ \A r \in routers : CanDeliver(r)
+       ELSE /\ RMFree /\ \A r \in routers : CanDeliver(r)
             /\ resp' = [r \in Reqs |-> IF r \in routers THEN Append(resp[r], "err") ELSE resp[r]]
             /\ routers' = {r \in routers : Streaming(r)}
   /\ rpc' = "exited"
@@ -542,13 +593,13 @@ Close ==
 CallerStep == \E r \in Reqs : Issue(r) \/ HandOffQueue(r) \/ HandOffDirect(r) \/ ClosedReply(r) \/ CtxReply(r)
                                \/ Take(r) \/ TakeCtx(r) \/ DeleteRouter(r) \/ StreamEarlyDone(r)
 SenderStep == Dequeue \/ SenderExit \/ Drain \/ CheckConnected \/ Dial \/ ReadBrokenForReconnect \/ SLockWait \/ SLocked
-              \/ SSleepDone \/ BrokenCheck \/ CtxCheck \/ SRLock \/ SendDone \/ Confirm
+              \/ SSleepDone \/ BrokenCheck \/ CtxCheck \/ SRLock \/ SendDone \/ SendNil \/ Confirm
               \/ \E r \in Reqs : WatcherFires(r)
-ReceiverStep == RRLock \/ CancelPending2 \/ RecvOk \/ Route \/ RecvErr \/ CancelPending \/ RLockWait \/ RLocked \/ SleepInterrupted
+ReceiverStep == RRLock \/ CancelPending2 \/ RecvOk \/ Route \/ RecvNil \/ RecvErr \/ CancelPending \/ RLockWait \/ RLocked \/ SleepInterrupted
                 \/ RcvNoticeClosed \/ ReceiverExit
 ClientInternal == CallerStep \/ SenderStep \/ ReceiverStep
 ServerStep == \E e \in Epochs : SrvStart(e) \/ \E r \in Reqs : Release(e, r) \/ HandlerItem(e, r) \/ HandlerReturn(e, r)
-EnvStep == (\E r \in Reqs : CtxEnd(r)) \/ Crash \/ Restart \/ Close \/ TimerFire
+EnvStep == (\E r \in Reqs : CtxEnd(r) \/ ForeignItem(r)) \/ Crash \/ Restart \/ Close \/ TimerFire
 
 Next == ClientInternal \/ ServerStep \/ EnvStep
 Spec == Init /\ [][Next]_vars
@@ -584,6 +635,8 @@ CtxPrompt == SettledClient => \A r \in Reqs : ctx[r] = "ended" => cpc[r] \in {"i
 NoStrandedCall == (Settled /\ up /\ ~closed) => \A r \in Reqs : cpc[r] \in {"idle", "done"}
 \* C09: the lock wedge itself
 NoLockWedge == ~(spc = "s_lockwait" /\ "snd" \in lkWait /\ rpc = "recv" /\ alive[rcvEpoch] = "open")
+\* C10: no goroutine of the library dies on a nil stream
+NoPanic == rpc # "panicked" /\ spc # "panicked"
 \* C12: after Close everything terminates and no caller is stranded
 CloseTerminates == (SettledClient /\ closed) =>
                      /\ spc = "exited" /\ rpc \in {"none", "exited"}
